@@ -222,6 +222,8 @@ pub struct ParseRun {
     /// ids of html:meta-style bookkeeping for C19: at each Encoding event, (label, snapshot of created elems count)
     pub encoding_events: Vec<(String, usize, bool)>,
     pub scripts: u32,
+    /// DOM mutations performed by the simulated page script
+    pub script_actions: u32,
 }
 
 /// Run the full HTML parser (tokenizer + tree builder) into an MSink.
@@ -233,6 +235,20 @@ pub fn run_html_parse(
     record_states: bool,
     on_script: &mut dyn FnMut(&BufferQueue, u32),
 ) -> ParseRun {
+    run_html_parse_scripted(chunks, opts, gc, record_states, on_script, None)
+}
+
+/// Like `run_html_parse`; with `script_seed` a few random DOM mutations (remove / move of attached
+/// elements, as a page script could do) are performed at every suspension point, before the
+/// collection. The mutations depend only on the seed, the suspension index and the attached tree.
+pub fn run_html_parse_scripted(
+    chunks: &[String],
+    opts: &HtmlOpts,
+    gc: Gc,
+    record_states: bool,
+    on_script: &mut dyn FnMut(&BufferQueue, u32),
+    script_seed: Option<u64>,
+) -> ParseRun {
     let sink = MSink::new();
     let tok = make_html_parser(sink, opts);
     let q = BufferQueue::default();
@@ -242,6 +258,8 @@ pub fn run_html_parse(
     let mut poisoned = 0;
     let mut encoding_events = Vec::new();
     let mut scripts = 0;
+    let mut suspension_no = 0u64;
+    let mut script_actions = 0u32;
     let do_gc = |tok: &HtmlTok<MSink>| -> u64 {
         let tr = IdTracer { ids: RefCell::new(Vec::new()) };
         tok.sink.trace_handles(&tr);
@@ -252,6 +270,10 @@ pub fn run_html_parse(
         q.push_back(StrTendril::from_slice(c));
         loop {
             let r = tok.feed(&q);
+            suspension_no += 1;
+            if let Some(ss) = script_seed {
+                script_actions += tok.sink.sink.run_script(crate::prng::mix(ss, suspension_no));
+            }
             if gc == Gc::EverySuspension {
                 poisoned += do_gc(&tok);
             }
@@ -287,7 +309,7 @@ pub fn run_html_parse(
     }
     tok.end();
     let sink = tok.sink.sink;
-    ParseRun { sink, feeds, leftover_after_done: leftover, suspend_states, poisoned, encoding_events, scripts }
+    ParseRun { sink, feeds, leftover_after_done: leftover, suspend_states, poisoned, encoding_events, scripts, script_actions }
 }
 
 pub fn no_script(_: &BufferQueue, _: u32) {}
